@@ -343,6 +343,15 @@ def rem1Fits (T L w nn : Nat) : Bool :=
 /-- coins paid by a one-sided withdrawal of `w` shares from a side holding `T` -/
 def rem1Out (T L w nn : Nat) : Nat := (L + L - w) * w * T * nn / (L * L * D)
 
+/-- `removeUnilateralLiquidity`: burn the shares, pay the one coin from the pool -/
+def rem1Liq (s : State) (sender : Addr) (n : Nat) (minD : Denom) (w out : Nat) : R :=
+  match burnCk s.bank sender (lptDenom n) w with
+  | .error e => .error e
+  | .ok b1 =>
+    match b1.send (poolAddr n) sender minD out with
+    | none => rej "sdk/5"
+    | some b2 => .ok ({ s with bank := b2 }, coins [(minD, out)])
+
 /-- `msgServer.RemoveUnilateralLiquidity` + `Keeper.RemoveUnilateralLiquidity` -/
 def stepRem1 (s : State) (sender : Addr) (cp minD : Denom) (minA w : Nat) (deadline : Int) : R :=
   if expired s.now deadline then rej "coinswap/7"
@@ -355,14 +364,7 @@ def stepRem1 (s : State) (sender : Addr) (cp minD : Denom) (minA w : Nat) (deadl
       else if s.bank.balOf (poolAddr n) minD < minA then rej "coinswap/9"
       else if ¬ rem1Fits (s.bank.balOf (poolAddr n) minD) (shares s n) w (D - s.params.ufee) then pnc "int overflow"
       else if rem1Out (s.bank.balOf (poolAddr n) minD) (shares s n) w (D - s.params.ufee) < minA then rej "coinswap/8"
-      else match burnCk s.bank sender (lptDenom n) w with
-        | .error e => .error e
-        | .ok b1 =>
-          match b1.send (poolAddr n) sender minD (rem1Out (s.bank.balOf (poolAddr n) minD) (shares s n) w (D - s.params.ufee)) with
-          | none => rej "sdk/5"
-          | some b2 =>
-            .ok ({ s with bank := b2 },
-                 coins [(minD, rem1Out (s.bank.balOf (poolAddr n) minD) (shares s n) w (D - s.params.ufee))])
+      else rem1Liq s sender n minD w (rem1Out (s.bank.balOf (poolAddr n) minD) (shares s n) w (D - s.params.ufee))
 
 /-- a plain `bank.MsgSend` of one coin (donations to escrow addresses included) -/
 def stepDonate (s : State) (src dst : Addr) (d : Denom) (a : Nat) : R :=
